@@ -1,0 +1,15 @@
+//go:build verif
+
+package names
+
+// Verification hooks for property C13 (see the verification framework). Not compiled
+// without the "verif" build tag.
+
+// VerifAsn1Tags returns a copy of the universal tag name table used by FromAsn1Tag.
+func VerifAsn1Tags() map[int]string {
+	out := make(map[int]string, len(tags))
+	for k, v := range tags {
+		out[k] = v
+	}
+	return out
+}
